@@ -416,7 +416,7 @@ void vp_fault_stats_get(struct vp_fault_stats *s)
 	for (int i = 0; i < 64; i++) {
 		uint64_t *d = (uint64_t *) s, *a = (uint64_t *) &g_fs[i];
 		for (size_t k = 0; k < sizeof(*s) / 8; k++)
-			d[k] += a[k];
+			d[k] += __atomic_load_n(&a[k], __ATOMIC_RELAXED);
 	}
 }
 
